@@ -185,6 +185,19 @@ CLAIMED = {
         note="tokenize_lock is replaced by a simulated re-entrant lock; pre-emption is at Python line granularity "
              "inside dask/tokenize.py only (C code such as pickle/hashing is atomic).",
         ref="DESIGN.md §4 C12"),
+    "C40": dict(
+        technique="deterministic simulation (E1): dataframe shuffle/sort/set_index/de-duplication built and "
+                  "computed under simulated schedulers and completion schedules; disk shuffle on real partd "
+                  "files (appends, barrier, collects are scheduling events), multi-stage task shuffle",
+        text="shuffle must preserve the multiset of rows and put all rows of a key in one output partition; "
+             "sort_values/set_index must equal pandas' order (ties as multisets) with truthful divisions; "
+             "drop_duplicates/unique/nunique must equal pandas — under every simulated schedule, worker count "
+             "and entry point including the cloudpickle boundary, for empty partitions, NA/string/categorical "
+             "keys, both shuffle methods and max_branch forcing multi-stage task shuffles.",
+        note="pyarrow is absent: a permissive import stub is used and arrow strings/parquet cannot run; a run "
+             "whose exception follows a call into the stub is discarded and counted; partd is not "
+             "fault-injected; p2p shuffle needs distributed.",
+        ref="DESIGN.md §4 C40"),
 }
 
 NA = {
